@@ -133,11 +133,12 @@ type Event struct {
 	DRRParentCreate string `json:"drr_parent_created"`
 	DRKCreated      string `json:"drk_created"`
 	// blob lengths (decoded bytes)
-	KMSFrame   int `json:"kms_frame"` // bytes the case's KMS appends to the system key envelope
-	SKBlobLen  int `json:"sk_blob_len"`
-	IKBlobLen  int `json:"ik_blob_len"`
-	DRKBlobLen int `json:"drk_blob_len"`
-	DataLen    int `json:"data_len"`
+	WriterRegion string `json:"writer_region"` // region suffix of the key ids in the rows (differs from the reader's on a cross-region read)
+	KMSFrame     int    `json:"kms_frame"`     // bytes the case's KMS appends to the system key envelope
+	SKBlobLen    int    `json:"sk_blob_len"`
+	IKBlobLen    int    `json:"ik_blob_len"`
+	DRKBlobLen   int    `json:"drk_blob_len"`
+	DataLen      int    `json:"data_len"`
 	// the reference reader's walk down the hierarchy (AES-256-GCM with ct, tag, nonce cut as documented)
 	OpenSK       bool `json:"open_sk"`
 	OpenIK       bool `json:"open_ik"`
@@ -681,6 +682,7 @@ func (e *env) runCase(c *Case, id int) Event {
 		c.frame = id % 3
 	}
 	ev.KMSFrame = c.frame
+	ev.WriterRegion = c.Region
 	t0, err := strconv.ParseInt(c.Stamp, 10, 64)
 	if err != nil {
 		ev.Err = "bad stamp"
@@ -754,16 +756,28 @@ func (e *env) runCase(c *Case, id int) Event {
 			}
 			return b
 		}
+		// the writer may sit in ANOTHER region of a global table: its key ids carry its own region suffix, and a reader configured
+		// for a different region accepts them (documented id layout: ..._product[_region])
+		skID, ikID := c.SKID, c.IKID
+		if c.Region != "" && id%4 == 3 {
+			other := "us-east-1"
+			if c.Region == other {
+				other = "eu-central-1"
+			}
+			skID = strings.TrimSuffix(skID, "_"+c.Region) + "_" + other
+			ikID = strings.TrimSuffix(ikID, "_"+c.Region) + "_" + other
+			ev.WriterRegion = other
+		}
 		skRec := refcodec.KeyRecord{Created: skC, Key: append(seal([]byte(masterKey), skKey), frameBytes(c.frame)...), Revoked: c.SKRev}
-		ikRec := refcodec.KeyRecord{Created: ikC, Key: seal(skKey, ikKey), HasParent: true, ParentID: c.SKID, ParentCreated: skC, Revoked: c.IKRev}
-		drr := refcodec.DataRow{Key: refcodec.KeyRecord{Created: drkC, Key: seal(ikKey, drkKey), HasParent: true, ParentID: c.IKID, ParentCreated: ikC},
+		ikRec := refcodec.KeyRecord{Created: ikC, Key: seal(skKey, ikKey), HasParent: true, ParentID: skID, ParentCreated: skC, Revoked: c.IKRev}
+		drr := refcodec.DataRow{Key: refcodec.KeyRecord{Created: drkC, Key: seal(ikKey, drkKey), HasParent: true, ParentID: ikID, ParentCreated: ikC},
 			Data: seal(drkKey, payload)}
 		pretty := id%2 == 1
-		if err := st.install(c.SKID, skC, skRec, pretty); err != nil {
+		if err := st.install(skID, skC, skRec, pretty); err != nil {
 			ev.Err = "install system key row: " + err.Error()
 			return ev
 		}
-		if err := st.install(c.IKID, ikC, ikRec, pretty); err != nil {
+		if err := st.install(ikID, ikC, ikRec, pretty); err != nil {
 			ev.Err = "install intermediate key row: " + err.Error()
 			return ev
 		}
